@@ -34,6 +34,10 @@ def run(ck: Checker) -> None:
     from .c11 import r_child_kind
     ck.guard("R-CHILD-KIND", lambda: r_child_kind(ck))
     ck.guard("R-FLAGS-TT", lambda: T.r_gen_signature(ck))
+    from .c05 import r_no_early_tables
+    ck.guard("R-TYPES-CACHE", lambda: r_no_early_tables(ck))
+    from .c11 import r_normalise
+    ck.guard("R-NORMALISE", lambda: r_normalise(ck))  # the accessors report the annotation of the most derived class that declares a field
     from . import state_rules as S_
     ck.guard("R-GEN-PURE", lambda: S_.r_unstable_key(ck, "R-GEN-PURE", [("pyoak.node", "ASTNode.children"), ("pyoak.node", "ASTNode.get_properties"), ("pyoak.node", "ASTNode.get_child_nodes"), ("pyoak.node", "ASTNode.get_child_nodes_with_field"), ("pyoak.node", "ASTNode.iter_child_fields"), ("pyoak.node", "ASTNode.get_property_fields"), ("pyoak.node", "ASTNode.get_child_fields"), ("pyoak.node", "ASTNode.to_properties_dict")], "an accessor reports what the node holds and what its own class declares"))
     ck.require_count("R-FLAGS-TT", 16)
